@@ -140,14 +140,14 @@ func (c *c25Case) build(realUfrag string) ICECandidate {
 // ---------------------------------------------------------------- generator
 
 var (
-	c25Types     = []string{"host", "srflx", "prflx", "relay"}                                         //nolint:gochecknoglobals
-	c25Protos    = []string{"udp", "tcp"}                                                              //nolint:gochecknoglobals
-	c25AddrKinds = []string{"ipv4", "ipv6", "mdns"}                                                    //nolint:gochecknoglobals
-	c25TCPTypes  = []string{"", "active", "passive", "so"}                                             //nolint:gochecknoglobals
-	c25ExtShapes = []string{"none", "one", "one-empty", "first-empty", "last-empty", "both-empty"}     //nolint:gochecknoglobals
+	c25Types     = []string{"host", "srflx", "prflx", "relay"}                                        //nolint:gochecknoglobals
+	c25Protos    = []string{"udp", "tcp"}                                                             //nolint:gochecknoglobals
+	c25AddrKinds = []string{"ipv4", "ipv6", "mdns"}                                                   //nolint:gochecknoglobals
+	c25TCPTypes  = []string{"", "active", "passive", "so"}                                            //nolint:gochecknoglobals
+	c25ExtShapes = []string{"none", "one", "one-empty", "first-empty", "last-empty", "both-empty"}    //nolint:gochecknoglobals
 	c25ExtKeys   = []string{"generation", "network-cost", "network-id", "x-custom", "a", "K", "rtcp"} //nolint:gochecknoglobals
-	c25Ports     = []uint16{0, 1, 9, 80, 443, 1023, 1024, 3478, 32767, 32768, 49152, 65534, 65535}     //nolint:gochecknoglobals
-	c25Prios     = []uint32{                                                                           //nolint:gochecknoglobals
+	c25Ports     = []uint16{0, 1, 9, 80, 443, 1023, 1024, 3478, 32767, 32768, 49152, 65534, 65535}    //nolint:gochecknoglobals
+	c25Prios     = []uint32{                                                                          //nolint:gochecknoglobals
 		1, 2, 255, 256, 1 << 24, 1<<24 - 1, 1<<31 - 1, 1 << 31, 1<<31 + 1, 2130706431, 1694498815, 41885439, 1<<32 - 2, 1<<32 - 1,
 	}
 )
@@ -793,7 +793,7 @@ func TestVerifC25(t *testing.T) { //nolint:gocognit,cyclop,maintidx
 	run.Assume("the ICE agent adds remote candidates asynchronously: a candidate is declared missing only after a sentinel submitted after it became visible and 300 further polls passed")
 	run.Assume("ice.Agent ignores remote candidates with tcptype active and (mDNS disabled in the rig) .local names by design; for those only the nil result is checked")
 
-	n := kit.N(20000, 300000)
+	n := kit.N(20000, 1000000)
 	nBatches := (n + c25BatchSize - 1) / c25BatchSize
 	var sampled atomic.Int32
 
@@ -871,7 +871,7 @@ func TestVerifC25(t *testing.T) { //nolint:gocognit,cyclop,maintidx
 				run.Count("with_related_address", 1)
 			}
 			if c.Special != "" {
-				run.Seen("outside_design_domain", c.Special)
+				run.Seen("special_classes", c.Special)
 			}
 
 			// --- signaling form
